@@ -38,6 +38,8 @@ type c08TLSPeer struct {
 	// garbage: sends bytes that are no TLS record | close-at-once: connects and closes | close-after-hello
 	Kind     string `json:"kind"`
 	Requests int    `json:"requests,omitempty"`
+	// IdleMs[r]: (good peers) the connection stays idle this long before request r is sent (fake time)
+	IdleMs []int `json:"idle_ms_before_request,omitempty"`
 }
 
 type c08TLSCase struct {
@@ -150,6 +152,9 @@ func c08TLSBubble(c c08TLSCase) (sig string, err error) {
 					return
 				}
 				for r := 0; r < p.Requests; r++ {
+					if r < len(p.IdleMs) && p.IdleMs[r] > 0 {
+						time.Sleep(time.Duration(p.IdleMs[r]) * time.Millisecond)
+					}
 					if _, werr := tc.Write(c08Request(i*100+r, []string{"ok"})); werr != nil {
 						mu.Lock()
 						problems = append(problems, fmt.Sprintf("peer %d request %d: write: %v", i, r, werr))
@@ -178,7 +183,13 @@ func c08TLSBubble(c c08TLSCase) (sig string, err error) {
 		}()
 	}
 	synctest.Wait()
-	time.Sleep(30 * time.Second) // fake time: far more than any handshake or handler needs
+	idle := 0
+	for _, p := range c.Peers {
+		for _, ms := range p.IdleMs {
+			idle += ms
+		}
+	}
+	time.Sleep(30*time.Second + time.Duration(idle)*time.Millisecond) // fake time: far more than any handshake or handler needs, plus the idle periods
 	synctest.Wait()
 	mu.Lock()
 	for i, p := range c.Peers {
@@ -256,8 +267,8 @@ func c08TLSRun(t *testing.T, c c08TLSCase) (sig string, err error) {
 
 func TestC08TLS(t *testing.T) {
 	const name = "TestC08TLS"
-	rec := evid.New("C08", name, "a server on a TLS listener (memnet pipes wrapped by tls.Server, self-signed certificate) and 2..6 peers connecting one after the other, each drawn from {well-behaved TLS client doing 1..3 requests, silent (never sends a byte), "+
-		"sends its ClientHello and never reads, sends garbage instead of a TLS record, closes at once, closes after its ClientHello}, under testing/synctest; oracle: every well-behaved client completes its handshake and gets the right answer to each request within 30 s of fake time whatever the others do; "+
+	rec := evid.New("C08", name, "a server on a TLS listener (memnet pipes wrapped by tls.Server, self-signed certificate) and 2..6 peers connecting one after the other, each drawn from {well-behaved TLS client doing 1..3 requests with idle periods of 0 s .. 5 min before each, silent (never sends a byte), "+
+		"sends its ClientHello and never reads, sends garbage instead of a TLS record, closes at once, closes after its ClientHello}, under testing/synctest; oracle: every well-behaved client completes its handshake and gets the right answer to each request within 30 s of fake time (plus its own idle periods) whatever the others do; "+
 		"after all peers left, Shutdown and Serve return and the goroutine census is 0; non-trivial = a well-behaved client connects after a peer that stalls in the handshake; distinct by case").Attach(t)
 	testTLSConfig() // built once, outside any bubble
 	if rp := evid.LoadReplay(name); rp != nil {
@@ -279,6 +290,9 @@ func TestC08TLS(t *testing.T) {
 			p := c08TLSPeer{Kind: rapid.SampledFrom(kinds).Draw(rt, "kind")}
 			if p.Kind == "good" {
 				p.Requests = rapid.IntRange(1, 3).Draw(rt, "requests")
+				for r := 0; r < p.Requests; r++ {
+					p.IdleMs = append(p.IdleMs, rapid.SampledFrom([]int{0, 0, 0, 4000, 6000, 61000, 300000}).Draw(rt, "idle"))
+				}
 				if stalled {
 					nt = true
 				}
